@@ -429,4 +429,127 @@ theorem lrReject_iff (stat thr : ℝ) : lrReject stat thr = true ↔ thr < stat 
   unfold lrReject
   simp
 
+/-! ## positive semi-definiteness and the range of correlations -/
+
+theorem psd_two_point (K : Nat) (V : Mat ℝ) (hB : PSD K V) (i j : Fin K) (hij : i ≠ j) (a b : ℝ) :
+    0 ≤ a * a * ent V i i + a * b * ent V i j + b * a * ent V j i + b * b * ent V j j := by
+  have h := hB (fun k => if k = i then a else if k = j then b else 0)
+  have inner : ∀ p : Fin K, ∑ q : Fin K, (if p = i then a else if p = j then b else 0) * ent V p q *
+      (if q = i then a else if q = j then b else 0) =
+      (if p = i then a else if p = j then b else 0) * ent V p i * a +
+      (if p = i then a else if p = j then b else 0) * ent V p j * b := by
+    intro p
+    rw [← Finset.sum_subset (Finset.subset_univ {i, j})]
+    · rw [Finset.sum_pair hij]
+      simp [hij.symm]
+    · intro q _ hq
+      simp only [Finset.mem_insert, Finset.mem_singleton, not_or] at hq
+      simp [hq.1, hq.2]
+  simp only [inner] at h
+  rw [← Finset.sum_subset (Finset.subset_univ {i, j})] at h
+  · rw [Finset.sum_pair hij] at h
+    simp [hij.symm] at h
+    linarith
+  · intro p _ hp
+    simp only [Finset.mem_insert, Finset.mem_singleton, not_or] at hp
+    simp [hp.1, hp.2]
+
+/-- Cauchy–Schwarz for a symmetric positive semi-definite matrix -/
+theorem psd_cauchy_schwarz (K : Nat) (V : Mat ℝ) (hS : IsSymm K V) (hB : PSD K V) (i j : Nat)
+    (hi : i < K) (hj : j < K) (hjj : 0 < ent V j j) :
+    ent V i j ^ 2 ≤ ent V i i * ent V j j := by
+  by_cases hij : i = j
+  · subst hij; nlinarith
+  · have hne : (⟨i, hi⟩ : Fin K) ≠ ⟨j, hj⟩ := fun e => hij (Fin.mk.inj e)
+    have h := psd_two_point K V hB ⟨i, hi⟩ ⟨j, hj⟩ hne (ent V j j) (- ent V i j)
+    simp only at h
+    rw [hS j i hj hi] at h
+    nlinarith
+
+theorem corr_abs_le_one (K : Nat) (V : Mat ℝ) (hS : IsSymm K V) (hB : PSD K V)
+    (hpos : ∀ k, k < K → 0 < ent V k k) (i j : Nat) (hi : i < K) (hj : j < K) :
+    |ent (corr K V) i j| ≤ 1 := by
+  rw [corr_pos K V hpos, corrProd_entry K V i j hi hj]
+  have hii := hpos i hi
+  have hjj := hpos j hj
+  have hcs := psd_cauchy_schwarz K V hS hB i j hi hj hjj
+  have hd : 0 < Real.sqrt (ent V i i) * Real.sqrt (ent V j j) :=
+    mul_pos (Real.sqrt_pos.mpr hii) (Real.sqrt_pos.mpr hjj)
+  rw [abs_div, abs_of_pos hd, div_le_one hd]
+  rw [← Real.sqrt_mul hii.le, ← Real.sqrt_sq_eq_abs]
+  exact Real.sqrt_le_sqrt hcs
+
+
+/-! ### the robust and the bootstrap covariance are positive semi-definite -/
+
+theorem psd_iff (K : Nat) (M : Mat ℝ) :
+    PSD K M ↔ ∀ x : Fin K → ℝ, 0 ≤ x ⬝ᵥ (toM K M).mulVec x := by
+  unfold PSD
+  constructor
+  · intro h x
+    have := h x
+    simp only [dotProduct, Matrix.mulVec, toM]
+    convert this using 2 with a _
+    rw [Finset.mul_sum]
+    apply Finset.sum_congr rfl
+    intro b _
+    ring
+  · intro h x
+    have := h x
+    simp only [dotProduct, Matrix.mulVec, toM] at this
+    convert this using 2 with a _
+    rw [Finset.mul_sum]
+    apply Finset.sum_congr rfl
+    intro b _
+    ring
+
+theorem robust_psd (K : Nat) (V B : Mat ℝ) (hV : IsSymm K V) (hB : PSD K B) : PSD K (robust K V B) := by
+  rw [psd_iff] at *
+  intro x
+  unfold robust
+  rw [toM_mmul, toM_mmul]
+  have hVt : (toM K V).transpose = toM K V := (isSymm_iff K V).mp hV
+  have h := hB ((toM K V).mulVec x)
+  have e : x ⬝ᵥ (toM K V * (toM K B * toM K V)).mulVec x =
+      (toM K V).mulVec x ⬝ᵥ (toM K B).mulVec ((toM K V).mulVec x) := by
+    rw [← Matrix.mulVec_mulVec, ← Matrix.mulVec_mulVec, Matrix.dotProduct_mulVec]
+    congr 1
+    rw [← Matrix.mulVec_transpose, hVt]
+  rw [e]
+  exact h
+
+theorem sum_sq_form (K : Nat) (T : List (List ℝ)) (d : List ℝ → Fin K → ℝ) (x : Fin K → ℝ) :
+    ∑ a : Fin K, ∑ b : Fin K, x a * (T.map fun r => d r a * d r b).sum * x b =
+      (T.map fun r => (∑ a : Fin K, x a * d r a) ^ 2).sum := by
+  induction T with
+  | nil => simp
+  | cons r t ih =>
+    simp only [List.map_cons, List.sum_cons]
+    rw [← ih]
+    rw [sq, Finset.sum_mul_sum, ← Finset.sum_add_distrib]
+    apply Finset.sum_congr rfl
+    intro a _
+    rw [← Finset.sum_add_distrib]
+    apply Finset.sum_congr rfl
+    intro b _
+    ring
+
+theorem sampleCov_psd (K : Nat) (S : Mat ℝ) : PSD K (sampleCov K S) := by
+  intro x
+  have e : ∀ a b : Fin K, x a * ent (sampleCov K S) a b * x b =
+      (x a * (S.map fun r => (vget r a - colMean S a) * (vget r b - colMean S b)).sum * x b) /
+        ((S.length - 1 : ℕ) : ℝ) := by
+    intro a b
+    rw [sampleCov_entry K S a b a.2 b.2]
+    ring
+  simp only [e]
+  simp only [← Finset.sum_div]
+  apply div_nonneg _ (Nat.cast_nonneg _)
+  rw [sum_sq_form K S (fun r a => vget r a - colMean S a) x]
+  apply List.sum_nonneg
+  intro y hy
+  simp only [List.mem_map] at hy
+  obtain ⟨r, _, rfl⟩ := hy
+  exact sq_nonneg _
+
 end Stats
